@@ -12,7 +12,11 @@
 //! [`PixelDataReader`] and [`PixelDataWriter`]
 //! to be able to decode and encode imaging data, respectively.
 
-use dicom_core::{ops::AttributeOp, value::C};
+use dicom_core::{
+    PrimitiveValue, Tag,
+    ops::{AttributeAction, AttributeOp, AttributeSelector},
+    value::C,
+};
 use snafu::Snafu;
 use std::borrow::Cow;
 
@@ -433,6 +437,18 @@ pub trait PixelDataWriter {
             offset_table.push(offset);
             offset += item_size(&frame_data);
             dst.push(frame_data);
+        }
+        // the operations returned by `encode_frame` only know about one frame:
+        // if they set the Encapsulated Pixel Data Value Total Length,
+        // make it cover all fragments in `dst`
+        let total_length = AttributeSelector::from(Tag(0x7FE0, 0x0003));
+        if out.iter().any(|op| op.selector == total_length) {
+            out.retain(|op| op.selector != total_length);
+            let total: u64 = dst.iter().map(|fragment| fragment.len() as u64).sum();
+            out.push(AttributeOp::new(
+                total_length,
+                AttributeAction::Set(PrimitiveValue::from(total)),
+            ));
         }
         Ok(out)
     }
